@@ -181,6 +181,50 @@ def return_via_temp(src: str, qual: str) -> Optional[str]:
     return ast.unparse(tree) + "\n"
 
 
+def else_after_return(src: str, qual: str) -> Optional[str]:
+    """Behaviour-preserving refactor: `if c: ...; return X` followed by more statements becomes `if c: ...; return X
+    else: <those statements>` (applied to every block of function `qual`)."""
+    import ast
+    tree = ast.parse(src)
+    parts = qual.split(".")
+    scope = tree
+    target = None
+    for i, pname in enumerate(parts):
+        found = None
+        for n in ast.walk(scope) if i == 0 else ast.iter_child_nodes(scope):
+            if isinstance(n, (ast.FunctionDef, ast.ClassDef)) and n.name == pname:
+                found = n
+                break
+        if found is None:
+            return None
+        scope = found
+        target = found
+    if not isinstance(target, ast.FunctionDef):
+        return None
+    changed = [0]
+
+    def rewrite(stmts):
+        for st in stmts:
+            for field in ("body", "orelse", "finalbody"):
+                v = getattr(st, field, None)
+                if isinstance(v, list) and v and isinstance(v[0], ast.stmt) and not isinstance(st, (ast.FunctionDef, ast.ClassDef, ast.AsyncFunctionDef)):
+                    setattr(st, field, rewrite(v))
+            for h in getattr(st, "handlers", []) or []:
+                h.body = rewrite(h.body)
+        for i, st in enumerate(stmts):
+            if isinstance(st, ast.If) and not st.orelse and st.body and isinstance(st.body[-1], (ast.Return, ast.Raise)) and i + 1 < len(stmts):
+                st.orelse = rewrite(stmts[i + 1:])
+                changed[0] += 1
+                return stmts[:i + 1]
+        return stmts
+
+    target.body = rewrite(target.body)
+    if not changed[0]:
+        return None
+    ast.fix_missing_locations(tree)
+    return ast.unparse(tree) + "\n"
+
+
 def _apply(variant: dict, root: str) -> Optional[str]:
     """Apply the edits to the copy at root; returns a reason string when the variant must be skipped."""
     if variant.get("patch"):
@@ -211,7 +255,8 @@ def _apply(variant: dict, root: str) -> Optional[str]:
             return f"file {rel} absent"
         with open(path, encoding="utf-8") as f:
             src = f.read()
-        out = {"rename_locals": rename_locals, "invert_ifs": invert_ifs, "return_via_temp": return_via_temp}[kind](src, qual)
+        out = {"rename_locals": rename_locals, "invert_ifs": invert_ifs, "return_via_temp": return_via_temp,
+               "else_after_return": else_after_return}[kind](src, qual)
         if out is None:
             return f"function {qual} not found in {rel}"
         compile(out, path, "exec")
